@@ -42,6 +42,7 @@ def dom(r, m):
     return 30 if m in (4, 6, 9, 11) else 31
 
 
+DOY = 'common::the_day_of_year'
 ISO_T = '<date::Date as Trunc>::trunc_iso_year'
 ISO_R = '<date::Date as Round>::round_iso_year'
 E_J = 2440588
@@ -69,6 +70,8 @@ def class_tasks(facts, full=False, chunk=3300):
         return []
     out = [f"kclass:d2j:{lo}:{min(lo + 100, 400)}" for lo in range(0, 400, 100)]
     out += [f"kclass:j2d:{lo}:{min(lo + chunk, CYCLE_DAYS)}" for lo in range(0, CYCLE_DAYS, chunk)]
+    if DOY in facts.bodies:
+        out += [f"kclass:doy:{lo}:{min(lo + 200, 400)}" for lo in range(0, 400, 200)]
     for kind, key in (('isot', ISO_T), ('isor', ISO_R)):
         if key not in facts.bodies:
             continue
@@ -105,6 +108,22 @@ def run_classes(I, variant):
                     a = I.fresh_int(st, 'i32', 'cyc', 0, (10000 - r) // 400)
                     d = I.fresh_int(st, 'u32', 'day', 1, 31)
                     res = I.call_local(st, D2J, [VInt(a.form.scale(400).addc(r), 'i32'), VInt(Form.const(m), 'u32'), d])
+                    ok = False
+                    if len(res) == 1 and isinstance(res[0][1], VInt):
+                        sa, sd = a.form.terms[0][0], d.form.terms[0][0]
+                        l = _lin(res[0][1].form, (sa, sd))
+                        if l is not None:
+                            rows.append((r, m, l[1].get(sa, 0), l[1].get(sd, 0), l[0]))
+                            ok = True
+                    if not ok:
+                        bad.append((r, m, f"{len(res)} exit(s): " + '; '.join(repr(v)[:120] for _, v in res[:2])))
+        elif kind == 'doy':
+            for r in range(lo, hi):
+                for m in range(1, 13):
+                    st = State()
+                    a = I.fresh_int(st, 'i32', 'cyc', 0, (10000 - r) // 400)
+                    d = I.fresh_int(st, 'u32', 'day', 1, 31)
+                    res = I.call_local(st, DOY, [VInt(a.form.scale(400).addc(r), 'i32'), VInt(Form.const(m), 'u32'), d])
                     ok = False
                     if len(res) == 1 and isinstance(res[0][1], VInt):
                         sa, sd = a.form.terms[0][0], d.form.terms[0][0]
@@ -233,6 +252,16 @@ def contract(chunks):
     rec(J2D, 'K-inv: julian2date is the inverse of date2julian on every day of 0001-01-01..=9999-12-31', not inv_bad and covered['j2d'] == CYCLE_DAYS,
         '; '.join(inv_bad[:4]) or 'table incomplete')
     out.extend(iso_contract(chunks, C, {r[0]: r for r in j2d}))
+    drows = [r for ch in chunks if ch['kind'] == 'doy' for r in ch['rows']]
+    dbad = [b for ch in chunks if ch['kind'] == 'doy' for b in ch['bad']]
+    if drows or dbad:
+        wrong = []
+        for (r, m, ka, kd, c0) in drows:
+            want = sum(dom(r, k) for k in range(1, m))
+            if ka != 0 or kd != 1 or c0 != want:
+                wrong.append(f"year = {r} (mod 400), month {m}: day of year = {ka}*a + {kd}*day + {c0}, the calendar gives day + {want}")
+        rec(DOY, 'the_day_of_year: day + the lengths of the preceding months of that year, in each of the 4800 classes (year mod 400, month)',
+            not wrong and not dbad and len(drows) == 4800, '; '.join(wrong[:4]) or f"{len(drows)} classes, irregular {dbad[:2]}")
     return out
 
 
